@@ -306,6 +306,7 @@ class ExactDiag:
             full_psi = npc.zeros([self._pipe], psi.dtype, psi.qtotal)
             full_psi[self._mask] = psi
             psi = full_psi
+        psi = psi.copy(deep=False)  # don't relabel the argument
         psi.iset_leg_labels(['(' + '.'.join(self._labels_p) + ')'])
         psi = psi.split_legs([0])  # split the combined leg into the physical legs of the sites
         return MPS.from_full(self._sites, psi, form=canonical_form, unit_cell_width=self.model.lat.mps_unit_cell_width)
